@@ -17,8 +17,14 @@ FILE_MUTATORS = (
 )
 
 
-def try_guard(fn, guards, callee_suffix):
-    """Is there a necessary `?`-Continue (or Ok) edge on the result of a call to callee_suffix?"""
+def G_owner(F, h):
+    return cg.get(F).owner_chain(h)
+
+
+def try_guard(fn, guards, callee_suffix, F=None, depth=2):
+    """Is there a necessary `?`-Continue (or Ok) edge on the result of a call to callee_suffix?  With F: also through a private
+    helper of the crate - `helper(..)?` succeeded, and inside the helper every way of returning Ok lies behind that edge."""
+    import facts as _f
     for g in guards:
         d = fn.guard_desc(g)
         if d[0] == "variant" and d[3] in ("Continue", "Ok") and not d[1][1]:
@@ -29,6 +35,13 @@ def try_guard(fn, guards, callee_suffix):
             inner = [c for c in inner if not any(s in c for s in skip)]
             if inner and inner[0].endswith(callee_suffix):
                 return d
+            if F is not None and inner and depth > 0:
+                h = _f.private_helper(F, fn.crate, inner[0])
+                if h is not None:
+                    oks = [i for i, j, st in h.stmts() if st["k"] == "assign" and st["place"]["l"] == 0 and not st["place"]["p"]
+                           and st["rv"].get("k") == "agg" and st["rv"].get("variant") in ("Ok", "Some")]
+                    if oks and all(try_guard(h, h.guards_of(b), callee_suffix, F, depth - 1) is not None for b in oks):
+                        return d
     return None
 
 
@@ -51,19 +64,29 @@ def run(chk, F):
     chk.guard("child-stdout", "RinkService", lambda: c18.child_stdout(chk, F))
 
 
+# normalised form for these rules: only private helpers all of whose callers are the function itself are put back (`extract
+# function`); combinators and everything else stay as written
+OWNED = ("owned-helpers-only", "Option::<T>", "Iterator", "bool>::then", "Result::<T, E>", "FnOnce", "FnMut")
+
+
 def download(chk, F):
-    fn = F.find(CLI, "config::download_to_file")
+    # two views of the same function: as compiled, for "persist only after X succeeded" (a `helper(..)?` is followed into the
+    # helper, see try_guard), and with its own private helpers put back in place, for "which file / which path is this"
+    raw = F.find(CLI, "config::download_to_file")
+    fn = F.find(CLI, "config::download_to_file", inline=True, keep=OWNED)
     FK = "rink::config::download_to_file"
     persists = fn.call_sites(lambda c: "NamedTempFile" in c["path"] and c["path"].endswith("::persist"))
-    if len(persists) != 1:
+    rp = raw.call_sites(lambda c: "NamedTempFile" in c["path"] and c["path"].endswith("::persist"))
+    if len(persists) != 1 or len(rp) != 1:
         raise AnchorLost("expected one NamedTempFile::persist call in download_to_file, found %d" % len(persists))
     pb, pt = persists[0]
     guards = fn.guards_of(pb)
+    rguards = raw.guards_of(rp[0][0])
     where = fn.where(pb)
     for suffix, what in (("Easy::perform", "the transfer finished without a curl error"),
                          ("Easy::response_code", "the status code could be read"),
                          ("File::sync_all", "the temp file's data reached the disk")):
-        d = try_guard(fn, guards, suffix)
+        d = try_guard(raw, rguards, suffix, F)
         chk.decide(d is not None, "persist-gates", FK, "after:" + suffix, where,
                    "persist only after %s succeeded (`?` consumed): %s" % (suffix, what),
                    "NamedTempFile::persist can be reached without the success edge of %s: the cache file could be replaced "
@@ -72,8 +95,11 @@ def download(chk, F):
     # HTML page served with status 200, passes every transport-level test above)
     dv = None
     for sfx in ("serde_json::de::from_reader", "serde_json::from_reader", "serde_json::de::from_slice", "serde_json::de::from_str"):
-        dv = dv or try_guard(fn, guards, sfx)
-    okv = dv is not None and "tempfile_in" in ap_str(dv[1])
+        dv = dv or try_guard(raw, rguards, sfx, F)
+    # what is parsed is the temp file (seen where the parse is, with helpers put back in place)
+    parsed = [ap_str(fn.apath(t["args"][0])) for bb, t in fn.calls() if "callee" in t and t["callee"]["path"].endswith(
+        ("serde_json::de::from_reader", "serde_json::from_reader", "serde_json::de::from_slice", "serde_json::de::from_str"))]
+    okv = dv is not None and bool(parsed) and all("tempfile_in" in x for x in parsed)
     chk.decide(okv, "persist-gates", FK, "body-is-complete-json", where,
                "persist only after the downloaded temp file parsed as JSON to its end",
                "the downloaded body is not validated before it replaces the cache: a 200 response without Content-Length that is cut after k bytes "
@@ -113,10 +139,11 @@ def download(chk, F):
                "persist is not guarded by the HTTP status being exactly 200")
     # sync_all is on the temp file that is persisted
     tmp_ap = fn.apath(pt["args"][0])
-    d = try_guard(fn, guards, "File::sync_all")
+    d = try_guard(raw, rguards, "File::sync_all", F)
     same = False
     if d is not None:
-        same = "tempfile_in" in ap_str(d[1]) and "as_file_mut" in ap_str(d[1])
+        synced = [ap_str(fn.apath(t["args"][0])) for bb, t in fn.calls() if "callee" in t and t["callee"]["path"].endswith("File::sync_all")]
+        same = bool(synced) and all("tempfile_in" in x and "as_file_mut" in x for x in synced)
     chk.decide(same and "tempfile_in" in ap_str(tmp_ap), "persist-gates", FK, "sync-same-file", where,
                "the synced file is the temp file being persisted", "sync_all is not applied to the temp file that is persisted (%s)" % (ap_str(d[1])[:160] if d else "-"))
     # same directory + same path
@@ -148,13 +175,29 @@ def download(chk, F):
                    "write callback performs no file-system operation besides writing to its captured handle",
                    "write callback calls %s" % muts)
     # perform happens after write_function is installed, and before response_code
-    order = [(i, t["callee"]["path"].split("::")[-1]) for i, t in fn.calls() if "callee" in t and
-             t["callee"]["path"].endswith(("Easy::write_function", "Easy::perform", "Easy::response_code", "File::sync_all", "::persist", "::tempfile_in"))]
+    # on the function as compiled; a step done inside a private helper of it stands where that helper is called, provided every
+    # Ok return of the helper lies behind the step (the helper cannot succeed without having done it)
+    STEPS = ("Easy::write_function", "Easy::perform", "Easy::response_code", "File::sync_all", "::persist", "::tempfile_in")
+    order = [(i, t["callee"]["path"].split("::")[-1]) for i, t in raw.calls() if "callee" in t and t["callee"]["path"].endswith(STEPS)]
+    import facts as _f
+    for i, t in raw.calls():
+        h = _f.private_helper(F, CLI, t["callee"]["path"]) if "callee" in t else None
+        if h is None or raw.path not in G_owner(F, h):
+            continue
+        oks = [b for b, j, st in h.stmts() if st["k"] == "assign" and st["place"]["l"] == 0 and not st["place"]["p"] and st["rv"].get("k") == "agg" and st["rv"].get("variant") in ("Ok", "Some")]
+        for hb, ht in h.calls():
+            if "callee" in ht and ht["callee"]["path"].endswith(STEPS) and oks and all(h.dominates(hb, b) for b in oks):
+                order.append((i, ht["callee"]["path"].split("::")[-1]))
+    fn_ = fn
+    fn = raw
+    snapshot = list(order)
+    order = sorted(snapshot, key=lambda x: sum(1 for y in snapshot if y[0] != x[0] and fn.dominates(y[0], x[0])))
     names = [n for _, n in order]
     doms = all(fn.dominates(order[k][0], order[k + 1][0]) for k in range(len(order) - 1))
     chk.decide(names == ["tempfile_in", "write_function", "perform", "response_code", "sync_all", "persist"] and doms,
                "persist-gates", FK, "step-order", where, "steps dominate each other in the order tempfile_in, write_function, perform, response_code, sync_all, persist",
                "download steps are %s (dominance chain %s)" % (names, doms))
+    fn = fn_
 
 
 def writers(chk, F):
@@ -216,7 +259,9 @@ def writers(chk, F):
             is_t = any(tainted(fn, fn.apath(a)) or local_tainted(fn, a) for a in t["args"])
             FK = "rink::" + fn.path
             if is_t:
-                chk.decide((fn.path, name) in allowed, "cache-writers", FK, name, fn.where(bb),
+                # (a private helper all of whose callers are the download routine is the download routine's code)
+                owners = G.owner_chain(fn)
+                chk.decide(any((o, name) in allowed for o in owners), "cache-writers", FK, name, fn.where(bb),
                            "%s on the cache path inside the download routine" % name,
                            "%s is applied to a path derived from the cache directory outside the temp-file + rename "
                            "discipline of download_to_file" % p)
